@@ -528,10 +528,15 @@ def parse_assumptions(out):
     while i < len(lines):
         if lines[i].strip() == "Axioms:":
             i += 1
-            while i < len(lines) and (lines[i].startswith(" ") or re.match(r"^[A-Za-z_][\w.']*\s*:", lines[i])):
+            while i < len(lines) and (lines[i].startswith(" ") or re.match(r"^[A-Za-z_][\w.']*\s*(:|$)", lines[i])):
                 mm = re.match(r"^([A-Za-z_][\w.']*)\s*:", lines[i])
                 if mm:
                     axs.add(mm.group(1))
+                else:
+                    # a long type puts the name alone on its line and ": type" on the next one
+                    mm = re.match(r"^([A-Za-z_][\w.']*)\s*$", lines[i])
+                    if mm and i + 1 < len(lines) and re.match(r"^\s+:", lines[i + 1]):
+                        axs.add(mm.group(1))
                 i += 1
             continue
         i += 1
